@@ -87,6 +87,11 @@ CLAIMED = {
          "Five policies x 4 histories of 60-200 actions over 4 addresses with xids naming open / closed / unknown addresses or malformed: chosen session registered and open at that moment, nil only when none is open, XID policy honours ip:port. Cuts while idle / with a request in flight / between phase one and phase two, once and three times in a row, each on a client of its own: RegisterTM and RegisterRM for every earlier resource on the new session within 20 s, a new global transaction begins, the earlier branch's phase two is answered and restores the data.",
          "Cases whose connection is never re-established within 20 s are inconclusive (the property presupposes re-establishment): dubbo-getty stops reconnecting after an orderly close by the peer and seata-go has no reconnect timer, see DESIGN.md observations.",
          "DESIGN.md §4 C19"),
+ "C20": ("exploration",
+         "Go race detector + runtime monitors: one client child built with -race (both tiers) runs rounds of concurrent global transactions of all kinds through shared database handles and TCC actions while the fake coordinator drives phase two concurrently, fresh tables appear every round and the server closes idle pooled connections; race-report files (GORACE log_path, halt_on_error=0) are parsed and deduplicated by the first seata-go frame of each accessing stack; goroutine count, pool statistics and a watchdog per transaction",
+         "24 (thorough: 48) concurrent transactions per round x 4 (30) rounds + warm-up, kinds {AT 1-3 statements, XA autocommit, TCC prepare, AT+TCC} x {commit, rollback} on private rows: no race report with a seata-go frame in an accessing stack, every transaction returns within 120 s, every phase-two request is answered within three attempts, no pooled connection in use and no goroutine growth beyond max(15, transactions/4) after 5 s of quiescence.",
+         "Only interleavings that happened are judged; the check is repeated over seeds for reach. Races inside the harness, the MySQL driver or getty without a seata-go frame in the accessing stacks are not attributed.",
+         "DESIGN.md §4 C20"),
  "C16": ("exploration",
          "differential runtime monitor: the same generated statement program runs in one client process through the AT proxy, through the XA proxy and through the bare go-sql-driver against three fake databases with identical content; step results, statement journals, final committed contents and the coordinator's request log are compared",
          "Programs of queries, DML (literal / bound arguments, duplicate keys, syntax errors, unknown tables), prepared statements, explicit local transactions (default, isolation level, read-only; commit or rollback), pinned connections, multi-statement texts, DDL and locking reads, optionally with the server closing the idle pooled connections in between. Outside a global transaction (AT and XA proxies): identical journal (text, arguments, order), identical results (rows, column names/types, affected, last insert id, error number and text), no coordinator traffic. Inside a committed AT global transaction: identical business statement results, identical committed data, same business statements in the same order.",
